@@ -675,3 +675,57 @@ func (c *streamCtx) dirC20() []genCase {
 	}
 	return out
 }
+
+// ---------- branches the other streams reach rarely: one directed case each ----------
+func (c *streamCtx) dirRare() []genCase {
+	out := []genCase{}
+	base := c.base
+	// negative scale-up delta: scale-up from zero with a cached node size and negative requests
+	{
+		s := newSpec(base, 0)
+		b := s.group("g1")
+		b.o.MinNodes = 0
+		b.st.CacheCPU, b.st.CacheMem = 4000, 16*gib
+		b.pod("", -1000, -gib)
+		b.done()
+		out = append(out, single(s, "rare: negative scale-up delta (from zero, negative requests)"))
+	}
+	// the percentage cannot be computed: untainted nodes without cpu
+	for _, locked := range []bool{false, true} {
+		s := newSpec(base, 1)
+		b := s.group("g1")
+		b.node(0, 7200, withAlloc("", "16Gi"))
+		b.node(1, 7300, withAlloc("", "16Gi"))
+		if locked {
+			b.lockInside(100, 1)
+		}
+		b.pod(b.nodeName(0), 1000, gib)
+		b.done()
+		out = append(out, single(s, fmt.Sprintf("rare: no cpu capacity, locked=%v", locked)))
+	}
+	// fleet mode: third consecutive clean-up ends the process; a successful fleet scale-up; refused before any wait
+	for i, v := range []string{"exit", "ok", "describe-fails", "fleet-errors"} {
+		if !c.thorough && i == 1 {
+			continue // each waiting fleet case costs >= 1 s
+		}
+		s := newSpec(base, 0)
+		b := s.group("g1")
+		b.template = "lt-g1"
+		b.node(0, 7200)
+		b.node(1, 7300)
+		b.aws.FleetInstances = [][]string{{"i-fa", "i-fb"}}
+		switch v {
+		case "exit":
+			b.aws.ReadyAt = 0
+			s.Tries = map[string]int{"asg-g1": 2}
+		case "describe-fails":
+			b.aws.DescribeMode = 1
+		case "fleet-errors":
+			b.aws.FleetInstances, b.aws.FleetErrors = nil, 2
+		}
+		b.util(120, 0, true, false)
+		b.done()
+		out = append(out, single(s, "rare: fleet mode "+v))
+	}
+	return out
+}
